@@ -219,9 +219,8 @@ func c19Slice(r *ev.Run, depth int, p0, p, l, rw, q, l2, rw2 int) {
 		d.Skip(consumed)
 		before := d.Offset()
 		want := (dabs+before+7)/8*8 - dabs
-		if want > avail {
-			return // aligning would leave the slice: not required to be meaningful
-		}
+		// also when the boundary lies behind the end of the slice (an element whose length field
+		// excludes its padding): the skip is counted from the start of the message, not clipped
 		d.SkipAlign()
 		got := d.Offset()
 		if got != want || got < before || got-before > 7 || (dabs+got)%8 != 0 {
